@@ -84,22 +84,37 @@ def run_case(case):
     holder = {}
 
     def static_checks():
-        from amaranth.hdl import Format, Signal
+        from amaranth.hdl import Format, Signal, Array, ValueCastable, signed, unsigned
         s8 = Signal(8)
-        for spec in INVALID_SPECS:
-            try:
-                Format("{:" + spec + "}", s8)
-            except ValueError:
-                P["invalid_specs_rejected"] += 1
-                continue
-            raise Violation("invalid_spec_accepted", -1, {"spec": spec})
-        from amaranth.hdl import signed
-        for spec in ("c", "s"):
-            try:
-                Format("{:" + spec + "}", Signal(signed(8)))
-            except ValueError:
-                continue
-            raise Violation("invalid_spec_accepted", -1, {"spec": spec, "shape": "signed(8)"})
+
+        class Plain(ValueCastable):         # a value-castable whose shape is a plain Shape
+            def __init__(self, v):
+                self.v = v
+
+            def shape(self):
+                return self.v.shape()
+
+            def as_value(self):
+                return self.v
+        # every kind of object a specification can be applied to is validated alike: a signal, an expression, an element of an
+        # Array selected by a signal, a value-castable of plain shape, one whose shape keeps the default format()
+        from dsim.progen import _default_format_view
+        kinds = {"signal": lambda sg: sg, "expression": lambda sg: sg + 0, "array element": lambda sg: Array([sg, sg])[Signal(1)],
+                 "value-castable of plain shape": Plain, "value-castable with the default format()": _default_format_view}
+        for kname, mk in kinds.items():
+            for spec in INVALID_SPECS:
+                try:
+                    Format("{:" + spec + "}", mk(s8 if kname != "expression" else Signal(7)))
+                except ValueError:
+                    P["invalid_specs_rejected"] += 1
+                    continue
+                raise Violation("invalid_spec_accepted", -1, {"spec": spec, "applied_to": kname})
+            for spec in ("c", "s"):
+                try:
+                    Format("{:" + spec + "}", mk(Signal(signed(8))))
+                except ValueError:
+                    continue
+                raise Violation("invalid_spec_accepted", -1, {"spec": spec, "shape": "signed(8)", "applied_to": kname})
 
     def go():
         static_checks()
